@@ -309,6 +309,8 @@ class _FilePersistence(_ConcretePersistence):
                 continue
 
             if line == csv_header:
+                if filtered_data_file:
+                    filtered_data_file.write(line)
                 continue
 
             try:
